@@ -12,9 +12,11 @@ L1_NOTE = ("Trusted base: z3; the proxy engine symx (proxies + replay-based DFS)
 CLAIMED = {
  "C01": dict(text="Bounded symbolic model checking of the real limit checks: Channel.validate_duration / validate_pulse, DMM.validate_pulse "
              "on a real DetuningMap, Pulse.__init__, sample finiteness of short Ramp/Blackman/Constant waveforms and the max-sequence-duration / "
-             "refusal-has-a-cause obligations of the L1 scheduler step; limits, durations and sample values are solver variables.", ref="§6 C01",
+             "refusal-has-a-cause obligations of the L1 scheduler step, the Sequence glue (add / add_dmm_detuning incl. a DMM configured twice / "
+             "enable_eom_mode + add_eom_pulse with symbolic duration, amplitude, detuning) and the DMM pulse created by an SLM mask; limits, durations "
+             "and sample values are solver variables.", ref="§6 C01, §11",
              note="Trusted base: z3, symx, decimal fixed-point model of np.round(x,6) (D-mode, 1e-7 grid) and exact reals for amplitudes; "
-             "stubs in the evidence file. Known findings F1, F2a, F2b, F4 are reported as KNOWN-FINDING, any other violation as VIOLATION."),
+             "stubs in the evidence file. Known findings F1, F2a, F2b, F4, F16 are reported as KNOWN-FINDING, any other violation as VIOLATION."),
  "C07": dict(text="Bounded symbolic model checking of the phase bookkeeping: _QubitRef/_PhaseTracker (<=4 operations) and Sequence programs "
              "(add with post_phase_shift, phase_shift on subsets, retarget, two channels per basis) against a reference accumulator, as an "
              "inductive per-call step; phases on the grid 2*pi*k/360.", ref="§6 C07",
@@ -44,10 +46,11 @@ CLAIMED = {
              "modulated samples and the padding of a channel still in EOM mode in the per-atom view are outside the claim."),
  "C16": dict(text="Bounded symbolic model checking of waveform/pulse contracts: index/slice arithmetic for all integer arguments against Python's "
              "slice semantics, sample count/finiteness/documented values/integral/scaling/division/equality of Constant, Ramp, Custom, Composite and "
-             "Blackman waveforms for durations 1-6 with symbolic parameters, Pulse phase range, ArbitraryPhase reconstruction at every sample, and a "
-             "binary64 (QF_FP) query for the wrap edge of x % 2*pi.", ref="§6 C16",
+             "Blackman waveforms for durations 1-6 with symbolic parameters, Blackman / Kaiser from_max_val (never above max_val, area kept, one ns "
+             "shorter would exceed; window length concretised by forking, symbolic area), Pulse phase range, ArbitraryPhase reconstruction at "
+             "every sample, and a binary64 (QF_FP) query for the wrap edge of x % 2*pi.", ref="§6 C16, §11",
              note="Trusted base: z3, symx; R-mode exact reals with tolerance 1e-9 where binary64 constants are involved. Findings F2a/F2b/F3 are reported "
-             "as KNOWN-FINDING. Interpolated/Kaiser numerics and the from_max_val duration searches are outside the claim."),
+             "as KNOWN-FINDING. Interpolated numerics, Kaiser short-window branch and from_max_val outside the stated window lengths are outside the claim."),
  "C12": dict(text="Bounded symbolic model checking of device geometry validation: _validate_coords/validate_register on real devices with up to "
              "two symbolic atoms among three (distances compared in squared form, offending pairs/atoms checked exactly), layout trap counts and "
              "filling fraction, BaseDevice parameter validation against the documented constraints, and closure of Register.max_connectivity / "
@@ -57,7 +60,7 @@ CLAIMED = {
  "C19": dict(text="Bounded symbolic model checking of canonical trap numbering: RegisterLayout built from 2-3 symbolic points (1e-7 decimal grid, so "
              "near-ties at the 1e-6 rounding precision are in the domain) in permuted orders gives identical, ascending sorted coordinates; "
              "define_register places qubits on their traps; DetuningMap weights follow the sorted traps and the qubit weight map is order "
-             "independent; accessors return copies.", ref="§6 C19",
+             "independent; accessors return copies; mappable registers resolve in declared order (kernel shared with C08, concrete).", ref="§6 C19, §11",
              note="Trusted base: z3, symx, D-mode fixed-point rounding, lexsort/unique/isclose contract shims. static_hash/== (SHA-256) and coordinate "
              "look-ups by float tuples are outside the claim."),
  "C18": dict(text="Bounded symbolic model checking of switch_device / switch_register: concrete programs (timing, EOM, retarget) on device A, "
@@ -78,9 +81,10 @@ CLAIMED = {
  "C17": dict(text="Bounded symbolic model checking of construction and abstract-repr round trips: NoiseModel (all 1-/2-subsets of 9 numeric "
              "parameters symbolic: active types = non-zero parameters, acceptance = documented ranges, field-wise round trip), Device/VirtualDevice "
              "with EOM/DMM and 12 optional-field patterns (symbolic channel and device numbers, real schema validation, field-wise equality), "
-             "Register/Register3D/RegisterLayout/DetuningMap with symbolic coordinates and weights, plus independence of repeated decodes.", ref="§6 C17",
-             note="Trusted base: z3, symx, token JSON facade. Findings F14, F15 are reported as KNOWN-FINDING. EmulationConfig/Results/State/Operator and "
-             "SimConfig (QuTiP-backed) are outside the claim; aliasing is decided by identity/mutation checks."),
+             "Register/Register3D/RegisterLayout/DetuningMap with symbolic coordinates and weights, EmulationConfig with default observables, "
+             "StateRepr, noise model and symbolic evaluation times, plus independence of repeated decodes.", ref="§6 C17, §11",
+             note="Trusted base: z3, symx, token JSON facade. Findings F14, F15 are reported as KNOWN-FINDING. Results, QuTiP-backed State/Operator classes and "
+             "SimConfig are outside the claim; aliasing is decided by identity/mutation checks."),
  "C02": dict(text="Bounded symbolic model checking of the real _Schedule operations: one operation from an arbitrary state "
              "satisfying the representation invariant (inductive step), all times/durations/fall times/limits as solver variables; "
              "exhaustive over paths and values inside the stated slot-count/clock bounds.", ref="§6 C02, §5 L1"),
